@@ -37,6 +37,8 @@ def worldOp (st : DState) (fields : List String) : DState × Outcome :=
     | some s, some k, some m => ({ st with sigs := (s, k, m) :: st.sigs }, .okPlain)
     | _, _, _ => (st, .okPlain)
   | "note" :: _ => (st, .okPlain)
+  -- `wipe <addr>`: deletes storage the reference sources do not have; the model has none
+  | ["wipe", _] => (st, .okPlain)
   | ["acct", a, egld, esdt] =>
     match ofHex a, egld.toNat?, parseEsdtB esdt with
     | some a, some e, some es =>
